@@ -139,7 +139,7 @@ def _notes_text(rng, ty, keys, malformed=None):
     return out
 
 
-def _header(rng, malformed=None, no_stops=False):
+def _header(rng, malformed=None, no_stops=False, exact_tempo=False):
     items = []
     for tag in G.TEXT_TAGS:
         if rng.random() < 0.45:
@@ -155,7 +155,7 @@ def _header(rng, malformed=None, no_stops=False):
         beats.append(Fr(4, 3))
     pairs = []
     for b in beats:
-        v = G.bpm_value(rng)
+        v = G.bpm_value(rng) if not exact_tempo else Fr(rng.choice(G.EXACT_BPMS))
         bs = f"{float(b):.3f}" if (b.denominator in (1, 2, 4, 8) or malformed == "offgrid") else G.dec(b)
         vs = f"{float(v):.3f}" if rng.random() < 0.6 else G.dec(v)
         pairs.append(f"{bs}={vs}")
@@ -190,8 +190,8 @@ def _header(rng, malformed=None, no_stops=False):
     return out
 
 
-def gen_text(rng, types, malformed=None, no_stops=False):
-    lines = _header(rng, malformed if malformed in ("offgrid", "nooffset") else None, no_stops)
+def gen_text(rng, types, malformed=None, no_stops=False, exact_tempo=False):
+    lines = _header(rng, malformed if malformed in ("offgrid", "nooffset") else None, no_stops, exact_tempo)
     n_charts = rng.choice([1, 1, 1, 2, 2, 3])
     for i in range(n_charts):
         ty, keys = rng.choice(types)
@@ -210,13 +210,14 @@ def generate(rng, tier):
     cases = []
     for i in range(n):
         r = rng.random()
+        ex = rng.random() < 0.5
         if r < 0.12:
             mal = rng.choice(["open", "stray", "rows6", "offgrid", "wide", "nooffset"])
-            cases.append({"kind": "read", "dom": False, "text": gen_text(rng, types, malformed=mal)})
+            cases.append({"kind": "read", "dom": False, "cmp_bpms": ex, "text": gen_text(rng, types, malformed=mal, exact_tempo=ex)})
         elif r < 0.20:
-            cases.append({"kind": "read", "dom": True, "text": gen_text(rng, types, no_stops=True)})
+            cases.append({"kind": "read", "dom": True, "cmp_bpms": ex, "text": gen_text(rng, types, no_stops=True, exact_tempo=ex)})
         else:
-            cases.append({"kind": "read", "dom": True, "text": gen_text(rng, types)})
+            cases.append({"kind": "read", "dom": True, "cmp_bpms": ex, "text": gen_text(rng, types, exact_tempo=ex)})
     return cases
 
 
@@ -234,7 +235,7 @@ def execute(case):
 def emit(case, out):
     tbl, idx = G.coq_text(case["text"])
     o = "None" if out["v"] is None else f"(Some {G.coq_set(out['v'])})"
-    return f"C02Read {F.boolean(case.get('dom', True))} (1#1000000) {tbl} {idx} {o}"
+    return f"C02Read {F.boolean(case.get('dom', True))} {F.boolean(case.get('cmp_bpms', False))} (1#1000000) {tbl} {idx} {o}"
 
 
 def _count_objs(text):
